@@ -36,6 +36,23 @@ def load_corpus(pid):
     return out
 
 
+def load_known(pid):
+    """concrete inputs of the known findings listed for this property (replayed on every run)"""
+    out = []
+    for f in core.known_findings().get("findings", []):
+        if pid not in f.get("properties", []):
+            continue
+        for inp in f.get("inputs", []):
+            t = inp["line"].split()
+            op, ty, fam, style, nd = t[0], t[1], t[2], t[3], int(t[4])
+            dims = [int(x) for x in t[5:5 + nd]]
+            nn = int(t[5 + nd])
+            nums = [num.from_bits(ty, int(x, 16)) for x in t[6 + nd:6 + nd + nn]]
+            out.append(Case(op, ty, fam, style, dims, nums, mop=inp.get("mop", op), mdims=inp.get("mdims", dims),
+                            tag="known_finding", meta={"known_finding": f["id"]}))
+    return out
+
+
 def nontrivial_key(c):
     return (c.mop, c.ty, tuple(c.mdims), tuple(num.bits(c.ty, x) for x in c.nums))
 
@@ -59,7 +76,7 @@ def run_property(mod, pid, tier, seed, replay=None):
         else:
             cases = [case_from_json(r["case"])]
     else:
-        cases = load_corpus(pid) + mod.gen(rng, tier)
+        cases = load_known(pid) + load_corpus(pid) + mod.gen(rng, tier)
     impl = core.run_impl(cases)
     model, n_model = core.run_model(cases)
     streams = {}
